@@ -78,7 +78,15 @@ def op_strategies(n_names: int = 4, max_sel: int = 9):
         st.just("set-at"), st.just("set_member"), st.sampled_from(FORMS), mref, klen,
         _weighted((3, st.tuples(st.just("module"), st.sampled_from(FPS[2:]), pk)), (1, st.tuples(st.just("limbo"), st.integers(0, 2)))).map(list),
     ).map(list)
+    switch_op = st.just(["switch"])
+    # move something (often a top-level module) into the other collection: delete, switch, re-insert at the top level
+    rehome = st.tuples(
+        st.tuples(st.just("del"), st.sampled_from(APIS_DEL), st.sampled_from(FORMS), _weighted((3, mref), (1, sel)), klen).map(list),
+        switch_op,
+        st.tuples(st.just("set"), st.sampled_from(APIS_SET), st.sampled_from(FORMS), st.just([]), names, st.just(1), st.just(["limbo", 0])).map(list),
+    ).map(list)
     return {
+        "switch": switch_op, "rehome": rehome,
         "stub": stub_op,
         "set": set_op, "set-at": set_at_op, "del": del_op, "resolve": resolve_op, "retarget": retarget_op,
         "move": move, "alias_resolved": alias_resolved,
@@ -90,7 +98,7 @@ def history_strategy(max_len: int = 40, n_names: int = 4):
     one = lambda s: s.map(lambda op: [op])  # noqa: E731
     chunk = _weighted(
         (7, one(ops["set"])), (3, one(ops["set-at"])), (3, one(ops["del"])), (3, one(ops["resolve"])), (2, one(ops["retarget"])),
-        (2, ops["move"]), (2, ops["alias_resolved"]), (1, one(ops["stub"])),
+        (2, ops["move"]), (2, ops["alias_resolved"]), (1, one(ops["stub"])), (1, one(ops["switch"])), (1, ops["rehome"]),
     )
     prelude = st.sampled_from(("empty", "populated", "rich", "rich", "rich"))
     return st.tuples(prelude, st.lists(chunk, min_size=3, max_size=max_len)).map(
@@ -156,6 +164,10 @@ def make_machine(n_names: int, known, on_done):
         @rule(pair=ops["move"])
         def reinsert_detached(self, pair):
             self._do(pair[1])
+
+        @rule()
+        def switch_collection(self):
+            self._do(["switch"])
 
         def teardown(self):
             on_done(self.prelude, self.ops, self.fails, self.world)
@@ -226,6 +238,9 @@ def alphabet(level: int):
     for path in inner:
         if path[:-1] not in conts:
             conts.append(path[:-1])
+    ops.append(["switch"])
+    if level == 0:
+        ops.append(["set", "set_member", "str", [], "a", 1, ["limbo", 0]])
     for cont in ([[]] if level >= 1 else []) + conts:
         ops.append(["set", "set_member", "str", cont, "a", 1, ["limbo", 0]])
         ops.append(["set", "setitem", "tuple", cont, "a", len(cont) + 1, ["limbo", 0]])
